@@ -34,6 +34,11 @@ class BoundMethod:
         self.obj, self.name = obj, name
 
 
+class DDict(dict):
+    """collections.defaultdict with concrete keys"""
+    factory = None
+
+
 class OpaqueSeq:
     """sequence of unknown length produced from a long string by the generic-element rule"""
 
@@ -70,7 +75,7 @@ class Interp(StrOps, AbsOps, Methods):
         return (self.fnstack[-1] if self.fnstack else '<top>', what)
 
     def truth(self, v):
-        if isinstance(v, (bool, z3.BoolRef, U, UAnd)):
+        if is_cond(v):
             return v
         if v is None:
             return False
@@ -224,6 +229,12 @@ class Interp(StrOps, AbsOps, Methods):
     def dict_subscript(self, v, sl):
         ctx = self.ctx
         sl = self.norm_str(sl)
+        if isinstance(v, DDict):
+            if isinstance(sl, FixedStr) or is_sym(sl):
+                raise Unsupported('defaultdict indexed by a symbolic key')
+            if sl not in v:
+                v[sl] = self.call(v.factory, [], {}, {}, None) if v.factory is not None else None
+            return v[sl]
         if isinstance(sl, (str, int, tuple)) or sl is None:
             if not isinstance(sl, tuple) or not any(is_sym(x) or isinstance(x, FixedStr) for x in sl):
                 if sl in v:
@@ -360,12 +371,16 @@ class Interp(StrOps, AbsOps, Methods):
         ctx.depth += 1
         if ctx.depth > self.max_depth:
             raise Unsupported('call depth')
-        self.fnstack.append(f.qualname)
+        self.fnstack.append(f.module.__name__ + ':' + f.qualname)
         try:
             self.block(node.body, env, f.module)
             return None
         except ReturnSig as r:
             return r.v
+        except Raise as r:
+            if r.site is None or r.site[0] == '<top>':
+                r.site = (f.module.__name__ + ':' + f.qualname, r.why)
+            raise
         finally:
             ctx.depth -= 1
             self.fnstack.pop()
@@ -474,6 +489,11 @@ class Interp(StrOps, AbsOps, Methods):
                 v = self.eval(x, env, module)
                 if i == len(e.values) - 1:
                     return v
+                if is_sym(v) and not is_cond(v) and i == len(e.values) - 2 and isinstance(e.values[-1], (ast.Constant, ast.Name)):
+                    w = self.eval(e.values[-1], env, module)
+                    if (isinstance(w, int) and not isinstance(w, bool)) or (is_sym(w) and not is_cond(w)):
+                        # "check or 10" on integers: a value, not a branch
+                        return z3.If(v != 0, w, v) if isand else z3.If(v != 0, v, w)
                 b = self.tobool(v)
                 if isand and not b:
                     return v if not is_cond(v) or isinstance(v, bool) else False
